@@ -215,6 +215,37 @@ def kwargs_check(p):
     return out
 
 
+def minimal_import_child(ctx):
+    """Fresh interpreter that imports nothing but pysnark.runtime (recorder injected) and calls @snark functions with
+    float / bool / int arguments."""
+    import json as _json
+    import os as _os
+    import subprocess as _sp
+    child = _os.path.join(common.VERIF, "pv", "children", "minimal_child.py")
+    r = _sp.run([common.PY, child, _json.dumps({"scenario": "snark-only-runtime-imported", "tree": common.TREE})],
+                capture_output=True, text=True, env=dict(_os.environ, PYTHONHASHSEED="0"), start_new_session=True, timeout=120)
+    rep = None
+    for ln in r.stdout.splitlines():
+        if ln.startswith("@@"):
+            rep = _json.loads(ln[2:])
+    if rep is None or not rep.get("backend_is_recorder"):
+        ctx.harness_errors.append("minimal-import child failed: " + (r.stderr[-300:] or r.stdout[-300:]))
+        return
+    res = rep.get("resolution") or 8
+    ctx.cov["minimal_import_calls"] = len(rep["calls"])
+    for c in rep["calls"]:
+        exp = []
+        for a in c["args"]:
+            exp.append(int(a) if isinstance(a, bool) else (a if isinstance(a, int) else int(a * (1 << res))))
+        want_out = {"area": [int(1.5 * 2.5 * (1 << res))], "flag": [1], "mix": [3], "scale": [int(0.75 * (1 << res))], "both": [3 << res, 0]}[c["name"]]
+        if c["error"] or c["pubs"] != exp + want_out:
+            ctx.violation({"klass": "public-values-differ", "via": "only-runtime-imported", "call": c["name"]},
+                          {"minimal": c["name"]},
+                          "fresh interpreter importing only pysnark.runtime (modules loaded before the call: %s): snark(%s)%s created public "
+                          "values %s%s, expected inputs %s then outputs %s" % (c["loaded_before"], c["name"], tuple(c["args"]), c["pubs"],
+                                                                             (" and raised " + c["error"]) if c["error"] else "", exp, want_out))
+
+
 def _task(t):
     chunk, p = t
     st = {"sequences": 0, "transitions": 0, "executions": 0}
@@ -289,6 +320,7 @@ def run(ctx):
         common.merge_counts(agg, r["st"])
         for v in r["viols"].values():
             ctx.violations.append({"sig": v["sig"], "case": v["case"], "what": v["what"] + " (x%d)" % v["count"]})
+    minimal_import_child(ctx)
     from .. import e1
     e1.dedupe_violations(ctx)
     ctx.cov.update(agg)
@@ -303,7 +335,19 @@ def run(ctx):
     ctx.sample({"sequence": [["mixed", [[1, 2], 2.5]]], "expected_public": "1, 2, 40 then the secret results in order"})
 
 
+class _Ctx:
+    def __init__(self):
+        self.cov, self.harness_errors, self.viols = {}, [], []
+
+    def violation(self, sig, case, what):
+        self.viols.append({"sig": sig, "what": what})
+
+
 def replay(case):
+    if "minimal" in case:
+        c = _Ctx()
+        minimal_import_child(c)
+        return {"scenario": "only pysnark.runtime imported", "violations": c.viols, "harness_errors": c.harness_errors}
     H.bind(case["p"])
     import warnings
     warnings.simplefilter("ignore")
